@@ -11,7 +11,7 @@ for f in sorted(glob.glob('/verif/seeded/*/meta.json')):
     caught_by=[c for c,e in last.items() if e==1]
     missed_first=[c for c,e in first.items() if e!=1 and last.get(c)==1]
     status='caught' if caught_by else ('MISSED' if runs else 'not run')
-    if missed_first: status='caught after strengthening'
+    if missed_first or m.get('missed_by_first_version_of_check'): status='caught after strengthening'
     rows.append((m['seed'],m['breaks_property'],m['change'][:230].replace('|','/'),m['needs_to_manifest'][:200].replace('|','/'),', '.join(caught_by) or '-',status))
 out=['| seed | property | change | needs | caught by (quick tier) | status |','|---|---|---|---|---|---|']
 for r in rows: out.append('| '+' | '.join(r)+' |')
